@@ -65,7 +65,6 @@ Section Rebuild.
   Variable S : schema.
   Variable F : features.
   Hypothesis Hdepth : depth_ok S = true.
-  Hypothesis Hgate : gating_coherent S F = true.
   Hypothesis Honce : interfaces_declared_once S = true.
   Hypothesis Hlocs : locations_known S = true.
   Hypothesis Hdef : refs_defined S = true.
@@ -237,9 +236,9 @@ Section Rebuild.
     | NScalar _ _ _ d => NScalar false true [] d
     | NEnum vs _ d => NEnum (map rebuild_enum_value (map intro_enum vs)) [] d
     | NInput fs _ _ d => NInput (map rb_input fs) [] true d
-    | NObject fs ifs _ d => NObject (map rb_field (vis_fields fs)) ifs [] d
+    | NObject fs ifs _ d => NObject (map rb_field (vis_fields fs)) (filter (visible_type S F) ifs) [] d
     | NInterface fs _ d => NInterface (map rb_field (vis_fields fs)) [] d
-    | NUnion ms _ d => NUnion ms [] d
+    | NUnion ms _ d => NUnion (filter (visible_type S F) ms) [] d
     end.
 
   Lemma kind_of_V n : In n V -> is_builtin_name n = false -> lookup n tbl = Some (ShKind (kind_of_named (tofS n))).
@@ -286,12 +285,11 @@ Section Rebuild.
     destruct t, k; try discriminate; reflexivity.
   Qed.
 
-  Lemma gate_iface n fs ifs r d i : In n V -> lookup n (types S) = Some (NObject fs ifs r d) -> In i ifs -> In i V.
+  Lemma gate_iface n fs ifs r d i : In n V -> lookup n (types S) = Some (NObject fs ifs r d) -> In i ifs ->
+    visible_type S F i = true -> In i V.
   Proof.
-    intros Hn Hl Hi. apply V_listed. apply listed_spec.
+    intros Hn Hl Hi Hvi. apply V_listed. apply listed_spec.
     assert (Hn' := Hn). apply V_listed, listed_spec in Hn'. destruct Hn' as [Hb Hv].
-    assert (Hm : In n (members S)) by (apply members_spec; exact Hb).
-    assert (Hvi : visible_type S F i = true) by (rewrite <- (gate_of_object S F Hgate n fs ifs r d i Hm Hl Hi); exact Hv).
     split; auto. eapply belongs_mention; eauto; [simpl; apply in_app_iff; auto | apply (visible_defined S F); auto].
   Qed.
 
@@ -316,6 +314,7 @@ Section Rebuild.
       cbn [obind].
       rewrite (omap_map _ tref_name).
       2:{ intros x Hx. apply in_map_iff in Hx. destruct Hx as [i [<- Hi]].
+          apply filter_In in Hi. destruct Hi as [Hi Hvi].
           rewrite forallb_forall in Hk. apply named_of_kind; auto. eapply gate_iface; eauto. }
       cbn [obind]. rewrite names_back. reflexivity.
     - rewrite otext_nullable.
@@ -324,6 +323,7 @@ Section Rebuild.
     - rewrite otext_nullable.
       rewrite (omap_map _ (fun x => tref_name x)).
       2:{ intros x Hx. apply in_map_iff in Hx. destruct Hx as [m [<- Hm]].
+          apply filter_In in Hm. destruct Hm as [Hm _].
           rewrite forallb_forall in Hk, Hg. rewrite tref_name_full || idtac.
           apply named_of_kind; auto. eapply mention_V; eauto. eapply subset_trans; eauto. }
       cbn [obind]. rewrite names_back. reflexivity.
@@ -344,12 +344,9 @@ Section Rebuild.
       + f_equal. f_equal. rewrite !map_map. apply map_ext. intros v. unfold canon_enum_value, rebuild_enum_value, intro_enum; simpl.
         rewrite !otext_nullable. reflexivity.
       + f_equal. apply canon_inputs_rb. intros a Ha. eapply inputs_of_type; eauto. simpl. apply in_map. exact Ha.
-      + f_equal.
-        * f_equal. unfold visible_fields. fold (vis_fields fs). rewrite !map_map. apply map_ext_in. intros f Hf.
-          apply canon_rb_field. intros a Ha. eapply inputs_of_type; eauto. simpl. apply in_flat_map. exists f.
-          split; [apply filter_In in Hf; tauto|]. unfold field_inputs. apply in_map. exact Ha.
-        * symmetry. apply filter_all. apply forallb_forall. intros i Hi.
-          assert (Hi' : In i V) by (eapply gate_iface; eauto). unfold V in Hi'. apply filter_In in Hi'. tauto.
+      + f_equal. f_equal. unfold visible_fields. fold (vis_fields fs). rewrite !map_map. apply map_ext_in. intros f Hf.
+        apply canon_rb_field. intros a Ha. eapply inputs_of_type; eauto. simpl. apply in_flat_map. exists f.
+        split; [apply filter_In in Hf; tauto|]. unfold field_inputs. apply in_map. exact Ha.
       + f_equal. f_equal. unfold visible_fields. fold (vis_fields fs). rewrite !map_map. apply map_ext_in. intros f Hf.
         apply canon_rb_field. intros a Ha. eapply inputs_of_type; eauto. simpl. apply in_flat_map. exists f.
         split; [apply filter_In in Hf; tauto|]. unfold field_inputs. apply in_map. exact Ha.
@@ -467,13 +464,13 @@ End Rebuild.
 
 (** the statement without the registry as a parameter *)
 Theorem rebuild_same_for_validation S F r :
-  depth_ok S = true -> gating_coherent S F = true -> interfaces_declared_once S = true -> locations_known S = true ->
+  depth_ok S = true -> interfaces_declared_once S = true -> locations_known S = true ->
   refs_defined S = true -> gating_nested S = true -> roots_visible S F = true ->
   builtins_consistent S = true -> kinds_ok S = true -> scalars_accept_all S = true -> defaults_denote S ->
   introspect (print_default S) S F = IntroOk r ->
   exists R, rebuild (map_defaults dflt_text r) = Some R /\ canon R = canon (erase S F).
 Proof.
-  intros H1 H2 H3 H4 H5 H6 H7 H8 H9 H10 H11 Hr.
+  intros H1 H3 H4 H5 H6 H7 H8 H9 H10 H11 Hr.
   destruct (registry_spec S) as [reg [Hreg _]].
   eapply rebuild_erases; eauto.
 Qed.
